@@ -36,6 +36,9 @@ type evRec struct {
 	kind string
 	arg  uint64
 	txn  uintptr
+	// who ran it, in a sequential run: 'S' the goroutine issuing the requests, 'B' a background
+	// shrinker; 0 in a concurrent run (the other clients' commits are not part of the trace)
+	who byte
 }
 
 type concClient struct {
@@ -125,7 +128,11 @@ func lockTrace(evs []evRec) string {
 		b, ok := per[e.txn]
 		if !ok {
 			b = &strings.Builder{}
-			b.WriteString("T")
+			if e.who != 0 {
+				b.WriteByte(e.who)
+			} else {
+				b.WriteString("T")
+			}
 			per[e.txn] = b
 			order = append(order, e.txn)
 		}
@@ -182,11 +189,17 @@ func txnID(kind string, op *fstxn.FsTxn) uintptr {
 var (
 	seqEvMu  sync.Mutex
 	seqEvBuf []evRec
+	// the goroutine that issues the requests of a sequential run (set where the observer is installed)
+	seqMainGid uint64
 )
 
 func seqObserver(kind string, op *fstxn.FsTxn, arg uint64) {
+	who := byte('B')
+	if curGid() == atomic.LoadUint64(&seqMainGid) {
+		who = 'S'
+	}
 	seqEvMu.Lock()
-	seqEvBuf = append(seqEvBuf, evRec{seq: atomic.AddUint64(&evSeq, 1), kind: kind, arg: arg, txn: txnID(kind, op)})
+	seqEvBuf = append(seqEvBuf, evRec{seq: atomic.AddUint64(&evSeq, 1), kind: kind, arg: arg, txn: txnID(kind, op), who: who})
 	seqEvMu.Unlock()
 }
 
